@@ -90,4 +90,9 @@ theorem shape_defaultInitiateAuthentication_ok : Oidc.Shapes.Shape_defaultInitia
 
 theorem shape_determineScheme_ok : Oidc.Shapes.Shape_determineScheme := by unfold Oidc.Shapes.Shape_determineScheme; rfl
 theorem shape_determineHost_ok : Oidc.Shapes.Shape_determineHost := by unfold Oidc.Shapes.Shape_determineHost; rfl
+/-! obligations against the regenerated program text: the functions these theorems rest on read, statement for statement, as
+    they did when the model was written after them (`Oidc/Shapes.lean`) -/
+theorem text_isLocalRedirectTarget_ok : Oidc.Shapes.Text_isLocalRedirectTarget := by unfold Oidc.Shapes.Text_isLocalRedirectTarget; rfl
+theorem text_buildFullURL_ok : Oidc.Shapes.Text_buildFullURL := by unfold Oidc.Shapes.Text_buildFullURL; rfl
+
 end Oidc.Props.C15
